@@ -347,7 +347,9 @@ class FixedArray
                 boost::python::throw_error_already_set();
             }
             // e can be -1 if the iteration is backwards with a negative slice operator [::-n] (n > 0).
-            if (s < 0 || e < -1 || sl < 0) {
+            // For an empty selection with a negative step Python clamps the
+            // start to -1 (e.g. a[-9:3:-1]); that is a valid, empty slice.
+            if ((s < 0 && sl != 0) || e < -1 || sl < 0) {
                 throw std::domain_error("Slice extraction produced invalid start, end, or length indices");
             }
             start = s;
